@@ -4,7 +4,7 @@ import json
 from pathlib import Path
 
 V = Path(__file__).resolve().parent.parent
-CLAIMED = json.loads((V / "tools/claimed.json").read_text())
+CLAIMED = {p.stem: json.loads(p.read_text()) for p in sorted((V / "tools/claimed.d").glob("C*.json"))}
 props = [json.loads(l) for l in (V / "properties.jsonl").read_text().splitlines() if l.strip()]
 checks, na = [], []
 for p in props:
